@@ -53,7 +53,19 @@ func c13Scenarios(tier string) []*Scenario {
 		}
 		sc.Check = func(x *Run, o *rt.Outcome) (string, string, string) {
 			s := x.Vals["sink"].(*fastSink)
-			dgs := s.drain(1)
+			dgs := s.drainUntil(func(d [][]byte) bool {
+				n := 0
+				for _, dg := range d {
+					if msg, err := decodeMessage(kind, dg); err == nil {
+						for _, m := range msg.Batch.Metrics {
+							if !strings.HasPrefix(m.Name, "tally.internal") {
+								n++
+							}
+						}
+					}
+				}
+				return n >= 4
+			})
 			got, cl, det := m3Collect(kind, dgs, x.Vals["tmin"].(int64), x.Vals["tmax"].(int64))
 			if cl != "" {
 				return cl, det, "viol"
@@ -137,7 +149,6 @@ func c14Scenarios(tier string) []*Scenario {
 				x.failf("first-close-error", "%v", closeErrs[0])
 			}
 			// after Close: everything is a no-op, a second Close reports an error instead of panicking
-			_ = s.readAvailable(nil)
 			c.ReportCount(8)
 			t.ReportTimer(9)
 			if v.hist {
@@ -147,17 +158,26 @@ func c14Scenarios(tier string) []*Scenario {
 			if err := r.Close(); err == nil {
 				x.failf("second-close-no-error", "a second Close returned nil")
 			}
-			_ = r.AllocateCounter("late", nil)
+			r.AllocateCounter("late", nil).ReportCount(8)
 			x.Vals["done"] = true
 		}
 		sc.Check = func(x *Run, o *rt.Outcome) (string, string, string) {
 			if x.Vals["done"] != true {
 				return "scenario-did-not-finish", "", "viol"
 			}
+			// calls made after Close carry the values 8, 9, 10: none of them may ever be sent
+			// (identified by content, not by arrival time)
 			s := x.Vals["sink"].(*fastSink)
-			late := s.readAvailable(nil)
-			if len(late) != 0 {
-				return "activity-after-close", fmt.Sprintf("%d datagrams were sent by calls made after Close had returned", len(late)), "viol"
+			for _, dg := range s.readAvailable(nil) {
+				msg, err := decodeMessage(v.kind, dg)
+				if err != nil {
+					continue
+				}
+				for _, m := range msg.Batch.Metrics {
+					if m.Name == "late" || m.Value.Count == 8 || m.Value.Timer == 9 || m.Value.Count == 10 {
+						return "activity-after-close", fmt.Sprintf("a value reported after Close had returned was sent: %s", metricKey(m, false)), "viol"
+					}
+				}
 			}
 			return "", "", "ok"
 		}
